@@ -235,6 +235,20 @@ def translate_keep_rule():
     want = ["state = FileState(row[0])", "hash_json = row[1]"]
     if [ast.unparse(s) for s in inner[0].body] != want:
         raise TranslatorError("File.initialize_row: keep rule assignment changed")
+    # optional second arm: a VOLATILE row that is merely supplied (UNDECLARED requested) stays VOLATILE
+    keep_vol = False
+    if inner[0].orelse:
+        arm = inner[0].orelse
+        ok = (len(arm) == 1 and isinstance(arm[0], ast.If) and not arm[0].orelse
+              and _ws(ast.unparse(arm[0].test)) == _ws("row is not None and state == FileState.UNDECLARED and (row[0] == FileState.VOLATILE.value)")
+              and [ast.unparse(x) for x in arm[0].body] == ["state = FileState.VOLATILE"])
+        if not ok:
+            ok = (len(arm) == 1 and isinstance(arm[0], ast.If) and not arm[0].orelse
+                  and _ws(ast.unparse(arm[0].test)) == _ws("row is not None and state == FileState.UNDECLARED and row[0] == FileState.VOLATILE.value")
+                  and [ast.unparse(x) for x in arm[0].body] == ["state = FileState.VOLATILE"])
+        if not ok:
+            raise TranslatorError(f"File.initialize_row: unrecognised second arm of the keep rule: {ast.unparse(arm[0].test)[:80]}")
+        keep_vol = True
     # the upsert must assign only the state column
     sqls = [n.value for n in ast.walk(fn) if isinstance(n, ast.Constant) and isinstance(n.value, str)
             and "INSERT INTO file" in n.value]
@@ -245,7 +259,7 @@ def translate_keep_rule():
     if ast.unparse(second.test) != "state == FileState.BUILT" or \
             [ast.unparse(s) for s in second.body] != ["self.graph.mark_file_outdated(self)"]:
         raise TranslatorError("File.initialize_row: BUILT degradation changed")
-    return requested, old
+    return requested, old, keep_vol
 
 
 def translate_clear_hash(en):
@@ -682,7 +696,7 @@ def generate():
     fs = en["fs"]
     guards, calls = translate_finalize(en)
     bd_vol, bd_hashed = translate_before_delete()
-    keep_req, keep_old = translate_keep_rule()
+    keep_req, keep_old, keep_vol = translate_keep_rule()
     clr_new, clr_pair_new, clr_pair_old = translate_clear_hash(en)
     set_sites, sql_sites, declare_sites, create_sites = scan_state_writers(en)
     sql_kinds = classify_sql_sites(sql_sites)
@@ -760,6 +774,8 @@ def generate():
         "(* file.py File.initialize_row: requested in keep_requested over an old row in keep_old keeps the old state *)",
         f"Definition keep_requested : list N := {S(keep_req)}.",
         f"Definition keep_old : list N := {S(keep_old)}.",
+        "(* second arm: UNDECLARED requested over a VOLATILE row keeps VOLATILE? *)",
+        f"Definition keep_volatile_on_supply : bool := {'true' if keep_vol else 'false'}.",
         "",
         "(* workflow.py _HASH_TRANSITIONS: ((cause, old_state, hash_known), new_state) *)",
         "Definition hash_transitions : list ((N * N * bool) * N) := [",
@@ -794,5 +810,5 @@ def generate():
     facts = {"guards": guards, "calls": calls, "set_sites": set_sites, "sql_writers": sql_kinds,
              "declare_sites": declare_sites, "create_sites": create_sites, "removal_sites": sites,
              "callers": sorted(cl), "fs": fs,
-             "mark_dir_skips_static_trees": skips_trees}
+             "mark_dir_skips_static_trees": skips_trees, "keep_volatile_on_supply": keep_vol}
     return "\n".join(lines), facts
